@@ -9,7 +9,9 @@ import (
 	"os/exec"
 	"runtime"
 	"sort"
+	"strings"
 	"sync"
+	"sync/atomic"
 
 	"verifharness/lib"
 )
@@ -71,7 +73,55 @@ func Corpus() []RunDesc {
 			Attacks: []Attack{{Name: "drop", Phase: 10, By: 1}}},
 		{ID: "corpus-reveal-omit", N: 5, T: 2, Corrupt: []int{2, 4}, Ops: distinctOps(5), OrderSeed: 19, Shuffle: true,
 			Attacks: []Attack{{Name: "silent-from", Phase: 7, By: 2}, {Name: "rev-omit", Phase: 10, By: 4}}},
+		// colluding revealer: 5 sends its accomplice 4 a share that does not fit 5's commitments, 4 keeps
+		// quiet in phase 4, 5 is silent from phase 4 on, 4 reveals its key for 5 in phase 10: every honest
+		// member drops the inconsistent share and disqualifies 4 (phase 11)
+		{ID: "corpus-collude-inconsistent-share-revealed", N: 5, T: 2, Corrupt: []int{4, 5}, Ops: distinctOps(5), OrderSeed: 41, Shuffle: true,
+			Attacks: Collusion(5, Attack{Name: "silent-from", Phase: 4}, Accomplice{K: 4, Share: "sh-wrong-value", Reveal: "rev-extra"})},
+		// the same with a dealer disqualified for malformed points and an accomplice revealing another key
+		{ID: "corpus-collude-wrong-key-revealed", N: 5, T: 2, Corrupt: []int{1, 3}, Ops: distinctOps(5), OrderSeed: 42, Shuffle: true,
+			Attacks: Collusion(1, Attack{Name: "pts-mutate", Phase: 7, K: 1}, Accomplice{K: 3, Share: "sh-wrong-value", Val: 2, Reveal: "rev-wrong-for"})},
 	}
+}
+
+// Accomplice: a corrupt seat K that cooperates with a corrupt dealer (see Collusion).
+//   Share   what the dealer sends K in phase 3: "sh-wrong-value" (Val picks the offset), "sh-garbage",
+//           "sh-wrong-key", or "" for a valid share (the control);
+//   Reveal  what K reveals for the dealer in phase 10: "rev-extra" the ephemeral key it really used
+//           with the dealer, "rev-wrong-for" some other key, "rev-none" an empty message, "" whatever
+//           K's own gjkr object reveals (nothing for the dealer when it holds no valid share of it).
+type Accomplice struct {
+	K      int
+	Share  string
+	Val    int64
+	Reveal string
+}
+
+// Collusion scripts a corrupt dealer m together with corrupt accomplices: in phase 3 m sends each
+// accomplice a share no honest member can check (every honest member gets a good share, so m enters
+// QUAL); the accomplice withholds the accusation it owes in phase 4; m leaves by [exit] (silent from
+// phase 4 or 7, withheld or malformed points in phase 7), so its individual key has to be reconstructed;
+// in phase 10 the accomplice reveals the ephemeral key it used with m. Only then do the honest members
+// reach the branches of recoverMisbehavedShares that judge a revealed share of a CORRUPT revealer
+// (undecryptable / inconsistent with m's commitments / key not matching).
+func Collusion(m int, exit Attack, acs ...Accomplice) []Attack {
+	var out []Attack
+	for _, a := range acs {
+		if a.Share != "" {
+			out = append(out, Attack{Name: a.Share, Phase: 3, By: m, Target: a.K, Val: a.Val})
+		}
+	}
+	exit.By = m
+	out = append(out, exit)
+	for _, a := range acs {
+		if a.Share != "" {
+			out = append(out, Attack{Name: "acc-quiet", Phase: 4, By: a.K, Target: m})
+		}
+		if a.Reveal != "" {
+			out = append(out, Attack{Name: a.Reveal, Phase: 10, By: a.K, Target: m})
+		}
+	}
+	return out
 }
 
 func pick(r *lib.Rng, xs []int) int { return xs[r.Intn(len(xs))] }
@@ -185,23 +235,9 @@ func runChildren(self string, descs []RunDesc, em *lib.Emitter) {
 		go func() {
 			defer wg.Done()
 			for i := range jobs {
-				in, _ := json.Marshal(descs[i])
-				cmd := exec.Command(self, "--child")
-				cmd.Stdin = bytes.NewReader(in)
-				var stderr bytes.Buffer
-				cmd.Stderr = &stderr
-				out, err := cmd.Output()
-				var c lib.Case
-				if err == nil {
-					err = json.Unmarshal(out, &c)
-				}
-				if err != nil {
-					// the child crashed (a panic in a goroutine of the implementation)
-					tail := stderr.String()
-					if len(tail) > 600 {
-						tail = tail[:600]
-					}
-					c = crashCase(descs[i], tail)
+				c, crashed := RunChild(self, descs[i])
+				if crashed {
+					Unattributed.Add(1)
 				}
 				results[i] = res{c: c}
 			}
@@ -221,6 +257,61 @@ func runChildren(self string, descs []RunDesc, em *lib.Emitter) {
 		}
 		tally(em, descs[i], c)
 		em.Case(c)
+	}
+}
+
+// Unattributed counts child processes that died without a VERIF-INITIATE marker to blame: the
+// drivers exit non-zero when it is not 0, so that the check fails instead of dropping the run.
+var Unattributed atomic.Int64
+
+// RunChild performs one run in a child process (ComputeGroupPublicKeyShares works in goroutines of
+// the implementation; a panic there kills the process). When the child dies inside an Initiate call
+// the run is repeated with that call skipped and the seat observed as failed at that point (what a
+// crash of that member's own process means in production); scripts are deterministic up to the
+// members' randomness, so the repetition reaches the same point. The second result is true when the
+// child died and no Initiate call can be blamed.
+func RunChild(self string, d RunDesc) (lib.Case, bool) {
+	for attempt := 0; ; attempt++ {
+		in, _ := json.Marshal(d)
+		cmd := exec.Command(self, "--child")
+		cmd.Stdin = bytes.NewReader(in)
+		var stderr bytes.Buffer
+		cmd.Stderr = &stderr
+		out, err := cmd.Output()
+		var c lib.Case
+		if err == nil {
+			err = json.Unmarshal(out, &c)
+		}
+		if err == nil {
+			return c, false
+		}
+		var ph, mem int
+		blamed := false
+		lines := strings.Split(stderr.String(), "\n")
+		for i := len(lines) - 1; i >= 0; i-- {
+			if strings.HasPrefix(lines[i], "VERIF-RETURNED ") {
+				break
+			}
+			if n, _ := fmt.Sscanf(lines[i], "VERIF-INITIATE %d %d", &ph, &mem); n == 2 {
+				blamed = true
+				break
+			}
+		}
+		if blamed && !d.skips(ph, mem) && attempt <= 2*d.N {
+			d.CrashSkip = append(d.CrashSkip, CrashPoint{ph, mem})
+			continue
+		}
+		var keep []string
+		for _, l := range lines {
+			if !strings.HasPrefix(l, "VERIF-") {
+				keep = append(keep, l)
+			}
+		}
+		tail := strings.Join(keep, "\n")
+		if len(tail) > 600 {
+			tail = tail[:600]
+		}
+		return crashCase(d, tail), true
 	}
 }
 
@@ -321,4 +412,8 @@ func Main() {
 	}
 	runChildren(self, descs, em)
 	em.Close(rule, nil)
+	if n := Unattributed.Load(); n > 0 {
+		fmt.Fprintf(os.Stderr, "%d child process(es) died outside any Initiate call\n", n)
+		os.Exit(3)
+	}
 }
